@@ -480,4 +480,14 @@ theorem slidingCount_emission {size slide : Nat} (hsz : 0 < size) (hsl : 0 < sli
   have := slidingCount_run_inv hsz hsl pre [] _ h0
   simpa using (slidingCount_step_inv hsz hsl this o).2
 
+theorem tumblingOkB_iff (d : Int) (w : List Ev) : tumblingOkB d w = true ↔ TumblingOk d w := by
+  unfold tumblingOkB TumblingOk
+  cases w with
+  | nil => simp
+  | cons f l => simp
+
+theorem sessionOkB_iff (g : Int) (w : List Ev) : sessionOkB g w = true ↔ SessionOk g w := by
+  unfold sessionOkB SessionOk
+  simp [List.all_eq_true]
+
 end Varpulis.Window
